@@ -15,7 +15,7 @@ import os
 import sys
 from fractions import Fraction
 
-REPO = "/repo"
+REPO = os.environ.get("VERIF_REPO", "/repo")   # (override only used by tools/seed_matrix.sh to test seeded copies in a scratch worktree)
 
 CLASSES = {
     "Circle": dict(file="coxeter/shapes/circle.py", params=["r"], attrs={"radius": "r", "_radius": "r"},
